@@ -247,6 +247,8 @@ pub fn long_paths(abs: bool) -> Vec<Vec<u8>> {
 	v.push(format!("{pre}{}/{}", segs(3), big));
 	v.push(format!("{pre}{big}/../{}", segs(3)));
 	v.push(format!("{pre}a//{big}/.//b"));
+	// more segments than a one-byte counter holds
+	v.push(format!("{pre}{}", vec!["a"; 300].join("/")));
 	v.into_iter().map(|s| s.into_bytes()).collect()
 }
 
